@@ -5,7 +5,7 @@ ID = "C16"
 LEVEL = "exploration"
 RULE = ("all globs of <=K tokens over a 21-token alphabet (literals incl. . - + ( $ z-with-dot; ? * ** / [ab] [!a] "
         "{a,b} @(a|b) ?(a) +(a) *(a) \\* \\?) x all well-formed path strings of <=L characters over "
-        "{a,b,z-with-dot,.,-,A,/,$,*} x ignore-case on/off (quick K=3,L=4; thorough K=4,L=4 and K=3,L=5); oracle 1: "
+        "{a,b,z-with-dot,.,-,A,/,$,*} x ignore-case on/off (quick K=3,L=4; thorough K=4,L=4, K=3,L=5 and K=5,L=3); oracle 1: "
         "independent backtracking matcher == Pattern::matches; oracle 2: every ancestor directory of a matching path "
         "passes matches_partially and PathSelector::matches_dir; oracle 3: as --exclude, no non-excluded file lies "
         "below a refused directory unless an ancestor is itself fully matched. distinct_nontrivial = number of "
@@ -25,10 +25,10 @@ def cases(tier, seed):
     if tier == "quick":
         specs = [(3, 4)]
     else:
-        specs = [(4, 4), (3, 5)]
+        specs = [(4, 4), (3, 5), (5, 3)]
     out = []
     for k, l in specs:
-        n = SHARDS if k <= 3 else SHARDS * 8
+        n = SHARDS if k <= 3 else (SHARDS * 8 if k == 4 else SHARDS * 64)
         out += [{"tokens": k, "pathlen": l, "shard": "%d/%d" % (i, n)} for i in range(n)]
     return out
 
